@@ -36,6 +36,30 @@ fn main() {
     for _ in 0..200 { match it.next() { Some(Err(_)) => errs += 1, Some(Ok(_)) => { if errs > 0 { after += 1; } } None => { if errs > 0 { break; } } } }
     if errs != 1 { found.push(format!("user error surfaced {errs} times (expected exactly once)")); }
     if after > 0 { found.push(format!("{after} points were yielded after the error item")); }
+    // a user error raised at the k-th call of the derivative (any k, any solver) surfaces as ONE UserError item, then None
+    {
+        use bacon_sci::ivp::adams::Adams3;
+        #[derive(Debug)] struct Boom(usize);
+        impl std::fmt::Display for Boom { fn fmt(&self, f: &mut std::fmt::Formatter) -> std::fmt::Result { write!(f, "boom {}", self.0) } }
+        impl std::error::Error for Boom {}
+        for solver in 0..4 { for k in 1..=40usize {
+            let calls = Cell::new(0usize);
+            let d = |_t: f64, y: &[f64], _: &mut ()| -> Result<BSVector<f64, 1>, UserError> { calls.set(calls.get() + 1); if calls.get() == k { Err(Box::new(Boom(k))) } else { Ok(BSVector::from_column_slice(&[-y[0]])) } };
+            macro_rules! go { ($b:expr) => {{
+                let mut it = $b.with_maximum_dt(0.1).unwrap().with_minimum_dt(1e-4).unwrap().with_tolerance(1e-4).unwrap().with_initial_time(0.0).unwrap()
+                    .with_ending_time(1.0).unwrap().with_initial_conditions_slice(&[1.0]).unwrap().with_derivative(d).solve(()).unwrap();
+                let mut items = Vec::new(); for _ in 0..400 { match it.next() { Some(x) => items.push(x.map(|_| ())), None => { if items.iter().any(|r| r.is_err()) || items.len() > 300 { break; } else { break; } } } }
+                let tail_none = (0..5).all(|_| it.next().is_none());
+                (items, tail_none)
+            }}; }
+            let (name, (items, tail_none)) = match solver { 0 => ("RungeKutta45", go!(RungeKutta45::new().unwrap())), 1 => ("Adams3", go!(Adams3::new().unwrap())), 2 => ("BDF2", go!(BDF2::new().unwrap())), _ => ("Adams5", go!(Adams5::new().unwrap())) };
+            let errs: Vec<&IVPError> = items.iter().filter_map(|r| r.as_ref().err()).collect();
+            if calls.get() < k { continue; }   // the solve finished before the k-th call
+            if errs.len() != 1 { found.push(format!("{name}: user error at call {k} surfaced {} times", errs.len())); break; }
+            if !matches!(errs[0], IVPError::UserError(_)) { found.push(format!("{name}: user error at call {k} surfaced as {:?} instead of UserError", errs[0])); break; }
+            if !items.last().unwrap().is_err() || !tail_none { found.push(format!("{name}: items were yielded after the error at call {k}")); break; }
+        } }
+    }
     found.truncate(10);
     println!("{{\"found\": {}, \"failures\": {:?}}}", !found.is_empty(), found);
     std::process::exit(if found.is_empty() { 0 } else { 1 });
